@@ -308,6 +308,16 @@ type envClause struct {
 	fields map[*types.Var]ast.Node // fields assigned in the body
 	helper *FuncInfo               // package helper wrapping the lookup (nil: os.LookupEnv / os.Getenv directly)
 	errObj types.Object            // helper that also parses: (value, ok, err) -- the error variable of the clause
+	setter *ast.CallExpr           // h(NAME, &recv.Field): the helper looks the variable up, parses it and stores through the pointer
+	stmt   ast.Stmt                // the statement holding the setter call
+}
+
+// at is the syntax the clause is reported at.
+func (cl *envClause) at() ast.Node {
+	if cl.setter != nil {
+		return cl.setter
+	}
+	return cl.ifs
 }
 
 func c20Table(p *Prog, r *Report) {
@@ -428,6 +438,57 @@ func c20Table(p *Prog, r *Report) {
 			return true
 		})
 	}
+	// setter helpers: err = durationFromEnv(NAME, &s.Field)
+	for _, fi := range envFuncs {
+		var stack []ast.Node
+		ast.Inspect(fi.Decl.Body, func(x ast.Node) bool {
+			if x == nil {
+				stack = stack[:len(stack)-1]
+				return true
+			}
+			stack = append(stack, x)
+			c, ok := x.(*ast.CallExpr)
+			if !ok || len(c.Args) != 2 {
+				return true
+			}
+			ua, ok := ast.Unparen(c.Args[1]).(*ast.UnaryExpr)
+			if !ok || ua.Op != token.AND {
+				return true
+			}
+			sel, ok := ast.Unparen(ua.X).(*ast.SelectorExpr)
+			if !ok {
+				return true
+			}
+			fv, ok := info.Uses[sel.Sel].(*types.Var)
+			if !ok || !fv.IsField() {
+				return true
+			}
+			h := p.staticCallee(fi.Pkg, c)
+			if h == nil || h.Pkg != fi.Pkg || !isEnvSetterHelper(p, h) {
+				return true
+			}
+			name, okc := constStr(info, c.Args[0])
+			if !okc {
+				r.Viol("C20.b", fi.Key+"#lookup", p.pos(c), "environment variable name is not a constant")
+				return true
+			}
+			// the statement of the enclosing block that holds the call
+			var stmt ast.Stmt
+			for i := len(stack) - 1; i > 0; i-- {
+				if _, isBlock := stack[i-1].(*ast.BlockStmt); isBlock {
+					stmt, _ = stack[i].(ast.Stmt)
+					break
+				}
+			}
+			if stmt == nil {
+				return true
+			}
+			cl := &envClause{fn: fi, envVar: name, fields: map[*types.Var]ast.Node{fv: c}, helper: h, setter: c, stmt: stmt}
+			clauses = append(clauses, cl)
+			clauseFns[fi.Key] = true
+			return true
+		})
+	}
 	r.Floor("C20.b", "environment-clauses", len(clauses), 7)
 	byField := map[*types.Var][]*envClause{}
 	for _, cl := range clauses {
@@ -480,12 +541,12 @@ func c20Table(p *Prog, r *Report) {
 			continue
 		}
 		if len(cls) > 1 {
-			r.Viol("C20.b", cons+"/env", p.pos(cls[1].ifs), fmt.Sprintf("setting assigned by %d environment clauses (%s and %s)", len(cls), cls[0].envVar, cls[1].envVar))
+			r.Viol("C20.b", cons+"/env", p.pos(cls[1].at()), fmt.Sprintf("setting assigned by %d environment clauses (%s and %s)", len(cls), cls[0].envVar, cls[1].envVar))
 		}
 		cl := cls[0]
 		l.Env = cl.envVar
 		if l.DocEnv != "" {
-			r.Check(l.DocEnv == cl.envVar, "C20.b", cons+"/env-name", p.pos(cl.ifs), "Env: "+l.DocEnv,
+			r.Check(l.DocEnv == cl.envVar, "C20.b", cons+"/env-name", p.pos(cl.at()), "Env: "+l.DocEnv,
 				fmt.Sprintf("setting is read from %s, the documentation says %s", cl.envVar, l.DocEnv))
 		}
 		c20Clause(p, r, cons, l, cl)
@@ -544,8 +605,13 @@ func c20Table(p *Prog, r *Report) {
 			}
 			// node of the LookupEnv init
 			var initNode []int
+			if cl.setter != nil {
+				if at := ff.NodeContaining(cl.setter); at >= 0 {
+					initNode = append(initNode, at)
+				}
+			}
 			for _, n := range ff.Nodes {
-				if n.Ast == cl.ifs.Init {
+				if cl.ifs != nil && n.Ast == cl.ifs.Init {
 					initNode = append(initNode, n.ID)
 				}
 			}
@@ -557,7 +623,7 @@ func c20Table(p *Prog, r *Report) {
 					}
 				}
 			}
-			r.Check(ok, "C20.b", fk+"#clause "+cl.envVar+" on every success path", p.pos(cl.ifs), "lookup precedes every success return", "a success return skips the lookup of "+cl.envVar)
+			r.Check(ok, "C20.b", fk+"#clause "+cl.envVar+" on every success path", p.pos(cl.at()), "lookup precedes every success return", "a success return skips the lookup of "+cl.envVar)
 		}
 	}
 }
@@ -653,9 +719,13 @@ func c20ExecClause(p *Prog, cl *envClause, field string, present, empty bool) (a
 				panic(rec)
 			}
 		}()
-		env.execBlock([]ast.Stmt{cl.ifs})
+		if cl.setter != nil {
+			env.execBlock([]ast.Stmt{cl.stmt})
+		} else {
+			env.execBlock([]ast.Stmt{cl.ifs})
+		}
 	}()
-	return st.Fields[field] != old, err
+	return st.Fields[field] != old || old.Tag != "old", err
 }
 
 // signChangingConversion: an integer conversion that changes signedness or narrows (a parsed -1 becomes 2^64-1).
@@ -686,6 +756,10 @@ func signChangingConversion(info *types.Info, e ast.Expr) string {
 
 func c20Clause(p *Prog, r *Report, cons string, l *cfgLeaf, cl *envClause) {
 	info := cl.fn.Pkg.TypesInfo
+	if cl.setter != nil {
+		c20SetterClause(p, r, cons, l, cl)
+		return
+	}
 	if cl.errObj != nil {
 		c20ParsingHelperClause(p, r, cons, l, cl)
 		return
@@ -1031,6 +1105,134 @@ func c20ParsingHelperClause(p *Prog, r *Report, cons string, l *cfgLeaf, cl *env
 			if bs := f.bindOf(n, c); bs.Kind != "none" {
 				f.SiteConsumed(r, "C20.b", cons+"/parse-error "+types.ExprString(c.Fun), cl.fn, bs, flowOpts{})
 			}
+		}
+	}
+}
+
+// isEnvSetterHelper: func(name string, dst *T) [error] that looks its first parameter up in the environment (itself
+// or through a lookup helper of the package) and stores through its second.
+func isEnvSetterHelper(p *Prog, h *FuncInfo) bool {
+	sig := h.Sig()
+	if sig == nil || sig.Params().Len() != 2 || sig.Results().Len() > 1 || h.Decl.Body == nil {
+		return false
+	}
+	if _, isPtr := sig.Params().At(1).Type().Underlying().(*types.Pointer); !isPtr {
+		return false
+	}
+	info := h.Pkg.TypesInfo
+	po := paramObjs(h)
+	if po[0] == nil || po[1] == nil {
+		return false
+	}
+	looks, stores := false, false
+	ast.Inspect(h.Decl.Body, func(x ast.Node) bool {
+		switch n := x.(type) {
+		case *ast.CallExpr:
+			if len(n.Args) == 1 && objOf(info, n.Args[0]) == po[0] {
+				if isFunc(info, n, "os", "LookupEnv") || isFunc(info, n, "os", "Getenv") {
+					looks = true
+				} else if g := p.staticCallee(h.Pkg, n); g != nil && g.Pkg == h.Pkg && isEnvLookupHelper(p, g) {
+					looks = true
+				}
+			}
+		case *ast.AssignStmt:
+			for _, l := range n.Lhs {
+				if st, ok := ast.Unparen(l).(*ast.StarExpr); ok && objOf(info, st.X) == po[1] {
+					stores = true
+				}
+			}
+		}
+		return true
+	})
+	return looks && stores
+}
+
+// c20SetterClause decides a clause of the form h(NAME, &recv.Field): the statement is evaluated (helpers included)
+// over present x empty; inside the helper the stored value derives from the looked-up text and parse errors are
+// bound and come back; the caller consumes the helper's error.
+func c20SetterClause(p *Prog, r *Report, cons string, l *cfgLeaf, cl *envClause) {
+	good, detail := true, ""
+	for _, present := range []bool{true, false} {
+		for _, empty := range []bool{true, false} {
+			if !present && !empty {
+				continue
+			}
+			got, err := c20ExecClause(p, cl, l.field.Name(), present, empty)
+			if err != nil {
+				r.Undecided("C20.b", cons+"/guard", p.pos(cl.setter), fmt.Sprintf("clause not evaluable: %v", err))
+				return
+			}
+			if want := present && !empty; got != want {
+				good = false
+				detail = fmt.Sprintf("the setting is assigned=%v for present=%v empty=%v; it must be taken from the environment iff the variable is set and non-empty", got, present, empty)
+			}
+		}
+	}
+	r.Check(good, "C20.b", cons+"/guard", p.pos(cl.setter), "assigned iff present && non-empty (statement and helpers evaluated)", detail)
+	h := cl.helper
+	hinfo := h.Pkg.TypesInfo
+	po := paramObjs(h)
+	// the looked-up text inside the helper
+	var textObj types.Object
+	ast.Inspect(h.Decl.Body, func(x ast.Node) bool {
+		as, ok := x.(*ast.AssignStmt)
+		if !ok || len(as.Rhs) != 1 {
+			return true
+		}
+		if c, ok := as.Rhs[0].(*ast.CallExpr); ok && len(c.Args) == 1 && objOf(hinfo, c.Args[0]) == po[0] && len(as.Lhs) >= 1 {
+			textObj = objOf(hinfo, as.Lhs[0])
+		}
+		return true
+	})
+	derives := false
+	ast.Inspect(h.Decl.Body, func(x ast.Node) bool {
+		as, ok := x.(*ast.AssignStmt)
+		if !ok {
+			return true
+		}
+		for _, lh := range as.Lhs {
+			if st, ok := ast.Unparen(lh).(*ast.StarExpr); ok && objOf(hinfo, st.X) == po[1] {
+				for _, rhs := range as.Rhs {
+					if textObj != nil && usesObj(hinfo, rhs, textObj) {
+						derives = true
+					}
+					if conv := signChangingConversion(hinfo, rhs); conv != "" {
+						r.Viol("C20.b", cons+"/conversion", p.pos(rhs), "the parsed value is converted "+conv+" on its way into the setting: a negative or too large value is not reported as a parse error but silently becomes another number")
+					}
+				}
+			}
+		}
+		return true
+	})
+	r.Check(derives, "C20.b", cons+"/value", p.pos(cl.setter), "stored through the pointer from the looked-up text", "the value stored into the setting does not depend on the environment variable's text")
+	hf := p.FlatOf(h)
+	parsers := 0
+	for _, n := range hf.Nodes {
+		if n.Ast == nil {
+			continue
+		}
+		for _, c := range callsIn(n.Ast, false) {
+			bs := hf.bindOf(n, c)
+			if bs.Kind == "none" || isFunc(hinfo, c, "fmt", "Errorf") {
+				continue
+			}
+			if g := p.staticCallee(h.Pkg, c); g != nil && g.Pkg == h.Pkg && isEnvLookupHelper(p, g) && g.Sig().Results().Len() < 3 {
+				continue
+			}
+			parsers++
+			l.Parser = types.ExprString(c.Fun)
+			hf.SiteConsumed(r, "C20.b", cons+"/parse-error "+l.Parser, h, bs, flowOpts{})
+		}
+	}
+	if parsers == 0 && h.Sig().Results().Len() == 1 {
+		r.Undecided("C20.b", cons+"/parse-error", p.pos(h.Decl), "no parsing call found in "+h.Key)
+	}
+	f := p.FlatOf(cl.fn)
+	if at := f.NodeContaining(cl.setter); at >= 0 {
+		if bs := f.bindOf(f.Nodes[at], cl.setter); bs.Kind != "none" {
+			f.SiteConsumed(r, "C20.b", cons+"/parse-error "+types.ExprString(cl.setter.Fun), cl.fn, bs, flowOpts{})
+		} else if h.Sig().Results().Len() == 1 {
+			r.Viol("C20.b", cons+"/parse-error "+types.ExprString(cl.setter.Fun), p.pos(cl.setter), "the error of the environment helper is dropped: a malformed value is not reported")
 		}
 	}
 }
